@@ -1359,6 +1359,15 @@ pub fn tree(rng: &mut Rng) -> Program {
         let op = if g.rng.chance(1, 2) { Op::Send { slot: p, script: vec![step], cancel: None } } else { Op::Call { slot: p, script: vec![step], cancel: None } };
         g.prog.clients[0].push(op);
     }
+    // sometimes a child is registered a second time with the same parent: under another type (it is then entitled to
+    // both kinds of broadcast) or under the same type (it then gets each broadcast twice)
+    if n > 1 && g.rng.chance(1, 3) {
+        let i = g.rng.range(1, n as u64 - 1) as usize;
+        let p = parent[i] as u16;
+        let ty = if g.rng.chance(2, 3) { (reg_ty[i] + 1 + g.rng.below(2) as u8) % 3 } else { reg_ty[i] };
+        let step = if ty == 2 { PStep::AddChild(i as u16) } else { PStep::RegisterChild(ty, i as u16) };
+        g.prog.clients[0].push(Op::Send { slot: p, script: vec![step], cancel: None });
+    }
     // barrier: make sure the registrations were handled before handles are dropped
     for i in 0..n {
         if (0..n).any(|c| parent[c] == i) {
